@@ -10,25 +10,30 @@
 EXTENDS Naturals, Sequences, FiniteSets, TLC, Json, IOUtils
 Trace == ndJsonDeserialize(IOEnv.VERIF_TRACE)
 N == Len(Trace)
-VARIABLES l, cfg, verdicts, authok, rejected, enters, hooks
-vars == <<l, cfg, verdicts, authok, rejected, enters, hooks>>
+VARIABLES l, cfg, verdicts, authok, rejected, enters, hooks, complete
+vars == <<l, cfg, verdicts, authok, rejected, enters, hooks, complete>>
 Ev == Trace[l]
 Is(e) == l <= N /\ Ev.ev = e
 Step == l' = l + 1 /\ TLCSet(1, l)
-Init == l = 1 /\ cfg = [pipe |-> "none"] /\ verdicts = 0 /\ authok = FALSE /\ rejected = FALSE /\ enters = {} /\ hooks = 0 /\ TLCSet(1, 0)
-Reset == Is("Reset") /\ cfg' = Ev /\ verdicts' = 0 /\ authok' = FALSE /\ rejected' = FALSE /\ enters' = {} /\ hooks' = 0 /\ Step
+Init == l = 1 /\ cfg = [pipe |-> "none"] /\ verdicts = 0 /\ authok = FALSE /\ rejected = FALSE /\ enters = {} /\ hooks = 0 /\ complete = TRUE /\ TLCSet(1, 0)
+\* complete: the client has sent (or is just about to send) the last byte of its first frame.  A client that delivers its first
+\* frame in two pieces (timing = "split") starts with an incomplete frame.
+Reset == Is("Reset") /\ cfg' = Ev /\ verdicts' = 0 /\ authok' = FALSE /\ rejected' = FALSE /\ enters' = {} /\ hooks' = 0
+         /\ complete' = ~("timing" \in DOMAIN Ev /\ Ev.timing = "split") /\ Step
 
 \* the exchange happens at most once per connection; it succeeds only for a token that THIS client sent and that is valid
 \* (whatever other connections of the process send meanwhile)
 GoodFirsts == {"authgood", "authsetidgood", "authgoodbytes"}
-AuthOK   == Is("AuthOK")   /\ cfg.first \in GoodFirsts /\ verdicts = 0 /\ verdicts' = 1 /\ authok' = TRUE /\ UNCHANGED <<cfg, rejected, enters, hooks>> /\ Step
-AuthFail == Is("AuthFail") /\ verdicts = 0 /\ verdicts' = 1 /\ UNCHANGED <<cfg, authok, rejected, enters, hooks>> /\ Step
-HookReject == Is("HookReject") /\ rejected' = TRUE /\ UNCHANGED <<cfg, verdicts, authok, enters, hooks>> /\ Step
+\* no verdict of the checker (it follows from bytes this client never sent), no message hook and no handler before the
+\* client's first frame is complete; while it pauses after the first piece the client sees no frame of any kind
+AuthOK   == Is("AuthOK")   /\ complete /\ cfg.first \in GoodFirsts /\ verdicts = 0 /\ verdicts' = 1 /\ authok' = TRUE /\ UNCHANGED <<cfg, rejected, enters, hooks, complete>> /\ Step
+AuthFail == Is("AuthFail") /\ complete /\ verdicts = 0 /\ verdicts' = 1 /\ UNCHANGED <<cfg, authok, rejected, enters, hooks, complete>> /\ Step
+HookReject == Is("HookReject") /\ rejected' = TRUE /\ UNCHANGED <<cfg, verdicts, authok, enters, hooks, complete>> /\ Step
 Established == authok /\ ~rejected
 \* no message hook and no handler without a completed exchange; each pipelined frame handled at most once
-Hook   == Is("Hook")   /\ Established /\ hooks' = hooks + 1 /\ UNCHANGED <<cfg, verdicts, authok, rejected, enters>> /\ Step
-HEnter == Is("HEnter") /\ Established /\ Ev.seq \notin enters /\ enters' = enters \cup {Ev.seq}
-          /\ UNCHANGED <<cfg, verdicts, authok, rejected, hooks>> /\ Step
+Hook   == Is("Hook")   /\ complete /\ Established /\ hooks' = hooks + 1 /\ UNCHANGED <<cfg, verdicts, authok, rejected, enters, complete>> /\ Step
+HEnter == Is("HEnter") /\ complete /\ Established /\ Ev.seq \notin enters /\ enters' = enters \cup {Ev.seq}
+          /\ UNCHANGED <<cfg, verdicts, authok, rejected, hooks, complete>> /\ Step
 NPipe == CASE cfg.pipe = "none" -> 0 [] cfg.pipe = "callpush" -> 2 [] OTHER -> 1
 Quiesce ==
   /\ Is("Quiesce")
@@ -38,10 +43,13 @@ Quiesce ==
             /\ Ev.authreplies = 1 /\ Ev.callreplies = (IF cfg.pipe \in {"call", "callpush"} THEN 1 ELSE 0)
        ELSE /\ ~Ev.listed /\ Ev.count = 0 /\ Ev.clienteof /\ Ev.serverclosed   \* closed by the server, not listed (under any id)
             /\ enters = {} /\ hooks = 0 /\ Ev.callreplies = 0
-  /\ UNCHANGED <<cfg, verdicts, authok, rejected, enters, hooks>> /\ Step
-Known == {"Reset", "AuthOK", "AuthFail", "HookReject", "Hook", "HEnter", "Quiesce", "ServeHang"}
-Skip == l <= N /\ Ev.ev \notin Known /\ UNCHANGED <<cfg, verdicts, authok, rejected, enters, hooks>> /\ Step
-Next == Reset \/ AuthOK \/ AuthFail \/ HookReject \/ Hook \/ HEnter \/ Quiesce \/ Skip
+  /\ UNCHANGED <<cfg, verdicts, authok, rejected, enters, hooks, complete>> /\ Step
+ClientWatch == Is("ClientWatch") /\ (~complete => Ev.authreplies = 0 /\ Ev.callreplies = 0 /\ Ev.otherframes = 0)
+               /\ UNCHANGED <<cfg, verdicts, authok, rejected, enters, hooks, complete>> /\ Step
+ClientComplete == Is("ClientComplete") /\ complete' = TRUE /\ UNCHANGED <<cfg, verdicts, authok, rejected, enters, hooks>> /\ Step
+Known == {"ClientWatch", "ClientComplete", "Reset", "AuthOK", "AuthFail", "HookReject", "Hook", "HEnter", "Quiesce", "ServeHang"}
+Skip == l <= N /\ Ev.ev \notin Known /\ UNCHANGED <<cfg, verdicts, authok, rejected, enters, hooks, complete>> /\ Step
+Next == Reset \/ ClientWatch \/ ClientComplete \/ AuthOK \/ AuthFail \/ HookReject \/ Hook \/ HEnter \/ Quiesce \/ Skip
 Spec == Init /\ [][Next]_vars
 Accepted == PrintT(<<"HWM", TLCGet(1), N>>) /\ TRUE
 =============================================================================
